@@ -238,7 +238,17 @@ func (g *c19Gen) body(ci int, names []string, ctx string) *ast.Node {
 	}
 	if len(names) > 0 {
 		g.labels["binding-used-in-body"] = true
-		switch g.n(0, 3, "bodyform") {
+		switch g.n(0, 4, "bodyform") {
+		case 4:
+			// a match directly inside this body that binds the same name again: the outer
+			// binding is back once the inner case has finished
+			nm := names[0]
+			inner := ast.Match(ast.Arr(ast.Str("inner"), ast.Id(nm)), ast.Case(ast.Arr(ast.Str("in"), ast.Id(nm), ast.Id("c19o")), ast.Arr(ast.Id(nm), ast.Id("c19o"))))
+			g.labels["match-nested-in-case-body"] = true
+			if g.b("nestedblock") {
+				return ast.Block(ast.Print(ast.Str(fmt.Sprintf("C%d:before", ci)), ast.Id(nm)), ast.Print(ast.Str("inner:"), inner), ast.Print(ast.Str(fmt.Sprintf("C%d:after", ci)), ast.Id(nm), ast.Is(ast.Id("c19o"), "unknown")))
+			}
+			return ast.Arr(ast.Id(nm), inner, ast.Id(nm))
 		case 0:
 			return ast.Id(names[len(names)-1])
 		case 1:
